@@ -8,7 +8,7 @@
 From Verif Require Import Base.Prelude Model.Tree Model.Spec Model.VM Model.Writer Gen.RunnerGen
   Proofs.SpecProofs Proofs.SpecBoundsProofs Proofs.MaskProofs
   Proofs.VMU Proofs.VMUOps Proofs.VMUOps2 Proofs.VMUOps3 Proofs.CompileBase
-  Proofs.CompileDefs Proofs.CompileStage1.
+  Proofs.CompileDefs Proofs.CompileStage1 Proofs.CompileLoop.
 From Coq Require Import Relations ZifyBool.
 
 Section CC.
@@ -27,11 +27,12 @@ Notation ok_node := (CompileDefs.ok_node e p).
 Notation ok_at := (CompileDefs.ok_at e p).
 
 (* ---------- the main induction ---------- *)
-Theorem cc_all_ok : forall f, ok_at f.
+Theorem cc_all_ok : forall f, Z.of_nat f <= INF -> ok_at f.
 Proof.
-  induction f as [|f IH]; intros t Hs Hg.
+  induction f as [|f IH]; intros Hf t Hs Hg.
   - intros s res Hsem. discriminate Hsem.
-  - destruct t; try discriminate Hs.
+  - assert (IH' : ok_at f) by (apply IH; lia). clear IH.
+    destruct t; try discriminate Hs.
     + apply cc_char; exact tc_nonneg.
     + apply cc_anchor; exact tc_nonneg.
     + apply cc_nothing; exact tc_nonneg.
@@ -39,20 +40,23 @@ Proof.
     + apply cc_bump.
     + apply cc_concat; assumption.
     + apply cc_alternate; assumption.
+    + cbn [supported] in Hs. apply andb_prop in Hs. destruct Hs as [Hs Hsr]. apply andb_prop in Hs. destruct Hs as [Hm Hn].
+      destruct Hg as [_ Hg]. apply cc_loop; try assumption; try lia. apply IH'; assumption.
     + cbn [supported] in Hs. apply andb_prop in Hs. destruct Hs as [Hu Hs]. apply Z.eqb_eq in Hu. subst u.
-      destruct Hg as [Hg0 Hg]. apply cc_capture; [exact tc_nonneg|apply IH; assumption|exact Hs|exact Hg0].
-    + apply cc_group. apply IH; [exact Hs|]. destruct Hg as [_ Hg]. exact Hg.
+      destruct Hg as [Hg0 Hg]. apply cc_capture; [exact tc_nonneg|apply IH'; assumption|exact Hs|exact Hg0].
+    + apply cc_group. apply IH'; [exact Hs|]. destruct Hg as [_ Hg]. exact Hg.
 Qed.
 
 Theorem compile_correct_partial : forall fuel t s res,
+  Z.of_nat fuel <= INF ->
   sem e fuel t s = Ok res -> supported t = true -> st_ok e s -> groups_ok (capsize p) t ->
   forall a tbl T S C M,
     has_code a (fst (emit cfg0 t a tbl)) -> (exists w, code_at p (a + csize cfg0 t) = Some w) ->
     track_ok T -> caps_rel (caps s) M ->
     leadsg (a + csize cfg0 t) T S S C M (mkr a 0 (pos s) T S C M) res.
 Proof.
-  intros fuel t s res Hsem Hs Hst Hg a tbl T S C M Hc Hex Hk Hr.
-  exact (cc_all_ok fuel t Hs Hg s res Hsem Hst a tbl T S C M Hc Hex Hk Hr).
+  intros fuel t s res Hf Hsem Hs Hst Hg a tbl T S C M Hc Hex Hk Hr.
+  exact (cc_all_ok fuel Hf t Hs Hg s res Hsem Hst a tbl T S C M Hc Hex Hk Hr).
 Qed.
 
 (* ---------- the whole program: Lazybranch Lend ; root ; Lend: Stop ---------- *)
@@ -77,6 +81,7 @@ Theorem compile_correct_top_partial : forall fuel o body t0 r,
   let stop := 2 + csize cfg0 root in
   codes p = fst (compile cfg0 root) ->
   supported root = true -> groups_ok (capsize p) root -> 0 <= t0 <= tlen e ->
+  Z.of_nat fuel <= INF ->
   attempt e fuel root t0 = Ok r ->
   code_at p stop = Some Stop /\
   exists t T S C M,
@@ -87,7 +92,7 @@ Theorem compile_correct_top_partial : forall fuel o body t0 r,
     | None => M = M0 /\ T = [] /\ S = [] /\ C = [] /\ matched0 (VMU.mk stop 0 t T S C M) = false
     end.
 Proof.
-  intros fuel o body t0 r root M0 stop Hcodes Hs Hg Ht0 Hatt.
+  intros fuel o body t0 r root M0 stop Hcodes Hs Hg Ht0 Hfuel Hatt.
   unfold attempt in Hatt. apply sp_bind_ok in Hatt. destruct Hatt as [l [Hsem Hr]]. injection Hr as <-.
   pose proof cc_has_code_self as Hc. rewrite Hcodes in Hc. unfold compile in Hc.
   pose proof (emit_length cfg0 root 2 []) as Lr.
@@ -104,7 +109,7 @@ Proof.
   destruct Hex2 as [w2 Hw2].
   assert (Hcap : 0 <= capsize p) by lia.
   assert (G : leadsg stop [0] [] [] [] M0 (mkr 2 0 t0 [0] [] [] M0) l).
-  { apply (compile_correct_partial fuel root {| pos := t0; caps := [] |} l Hsem Hs Hst Hg 2 [] [0] [] [] M0).
+  { apply (compile_correct_partial fuel root {| pos := t0; caps := [] |} l Hfuel Hsem Hs Hst Hg 2 [] [0] [] [] M0).
     - rewrite Er. exact Hcr.
     - exists Stop. exact Hstop.
     - eapply track_ok_cons. exact H0.
@@ -178,7 +183,7 @@ Proof.
     { cbn. repeat split; try exact I; cbv; congruence. }
     assert (Hp : 0 <= 0 <= tlen cc_demo_env) by (cbv; split; congruence).
     destruct (compile_correct_top_partial cc_demo_env cc_demo_prog Htc 20 0 cc_demo_body 0 (Some cc_demo_result)
-                eq_refl eq_refl Hg Hp ltac:(vm_compute; reflexivity)) as [_ (t & T & S & C & M & H1 & H2 & H3 & H4 & H5)].
+                eq_refl eq_refl Hg Hp ltac:(cbv; congruence) ltac:(vm_compute; reflexivity)) as [_ (t & T & S & C & M & H1 & H2 & H3 & H4 & H5)].
     exists t, T, S, C, M. exact (conj H1 (conj H2 (conj H3 (conj H4 H5)))).
   - eexists. split; [vm_compute; reflexivity|]. repeat split.
 Qed.
